@@ -1,6 +1,8 @@
 """Monitored execution of the real framing buffer (used by C02, C11, C08)."""
 from __future__ import annotations
 
+import time
+
 from vf.instr import HangDetected, StepBudget
 
 _SB = None
@@ -33,6 +35,9 @@ class Feed:
         self.steps = 0
 
 
+CPU_LIMIT = 1.5
+
+
 def feed(pieces, threshold, budget_scale=1.0, use_budget=True):
     from indi.transport.buffer import Buffer
     sb = stepbudget() if use_budget else None
@@ -51,6 +56,7 @@ def feed(pieces, threshold, budget_scale=1.0, use_budget=True):
         try:
             buf.append(piece)
             before = buf.data
+            cpu0 = time.thread_time()
             if sb is not None:
                 sb.run(int(budget_for(before) * budget_scale), buf.process, cb)
                 res.steps += sb.steps
@@ -62,6 +68,13 @@ def feed(pieces, threshold, budget_scale=1.0, use_budget=True):
         except Exception as e:  # noqa
             import traceback
             res.error = (j, "raise", "".join(traceback.format_exception_only(type(e), e)).strip())
+            break
+        finally:
+            cpu = time.thread_time() - cpu0
+        if cpu > CPU_LIMIT and len(before) < 20000:
+            # not a wall-clock verdict: CPU time of this thread, for a few KB of input, three to four orders of magnitude above
+            # what the call needs (time spent where no Python line event is raised: a regular expression, a C-level loop)
+            res.error = (j, "hang", f"one Buffer.process call on {len(before)} buffered characters burnt {cpu:.2f} s of CPU time (limit {CPU_LIMIT} s)")
             break
         data = buf.data
         res.after.append({"data_len": buf.data_len, "delivered": len(res.delivered), "fed": len(fed),
@@ -81,11 +94,16 @@ def guard_process(patch):
     def make(orig):
         def process(self, callback):
             stats["calls"] += 1
+            cpu0 = time.thread_time()
+            n = len(self.data)
             try:
                 return sb.run(budget_for(self.data), orig, self, callback)
             finally:
                 if sb.steps > stats["max_steps"]:
                     stats["max_steps"] = sb.steps
+                cpu = time.thread_time() - cpu0
+                if n < 20000 and cpu > stats.get("max_cpu", 0.0):
+                    stats["max_cpu"] = cpu
         return process
 
     patch.wrap(Buffer, "process", make)
